@@ -39,6 +39,10 @@ type Workload struct {
 	Sync    bool   `json:"sync"`
 	Engine  string `json:"engine"`
 	NSteps  int    `json:"nsteps"`
+	// SlowTables makes the worker's file system slow for table files (120 ms per table-file
+	// creation), so that sealed memtables pile up behind the flush and the crash image holds
+	// several WAL segments. A perturbation only: it changes no outcome.
+	SlowTables bool `json:"slow_tables,omitempty"`
 }
 
 // KV is one write of a step (Del when Value is nil).
@@ -229,7 +233,16 @@ func workerMain(args []string) int {
 	}
 	ctr := NewCounter(killAt)
 	o := w.Options(dir)
-	o.FS = vfs.NewFaultFS(vfs.OSFS{}, ctr.Hook)
+	hook := ctr.Hook
+	if w.SlowTables {
+		hook = func(op vfs.Op, path string) error {
+			if op == vfs.OpOpenFile && Classify(path) == "sst" {
+				time.Sleep(120 * time.Millisecond)
+			}
+			return ctr.Hook(op, path)
+		}
+	}
+	o.FS = vfs.NewFaultFS(vfs.OSFS{}, hook)
 	db := NoKV.Open(o)
 	ackLine(ack, "OPENED")
 	for i, st := range w.Steps() {
@@ -484,8 +497,8 @@ func againMain(args []string) int {
 		write()
 		return 0
 	}
+	res.Layout = dbx.LayoutShape(db) // right after Open: "imm:n" = recovered memtables waiting for their flush
 	res.First = dumpDB(db, w)
-	res.Layout = dbx.LayoutShape(db)
 	res.Actions = []string{fmt.Sprintf("crash-again@%d", killAt)}
 	write()
 	armed.Store(true)
@@ -855,6 +868,9 @@ func RunPoint(c *core.Case, w Workload, p Point, maint string) Outcome {
 	ack := dir + ".ack"
 	defer os.Remove(ack)
 	out := Outcome{Point: p}
+	if strings.HasPrefix(maint, "crash-again@") {
+		w.SlowTables = true
+	}
 	werr, stderr := RunWorker(dir, ack, w, p.KillAt, p.AfterStep, "")
 	out.Stderr = stderr
 	out.Ack = ReadAckLog(ack)
@@ -886,7 +902,13 @@ func RunPoint(c *core.Case, w Workload, p Point, maint string) Outcome {
 			out.Err = verr
 			return out
 		}
-		out.Verify = VerifyResult{First: first.First, Second: vr.First, Actions: append(first.Actions, "reopen"), Layout: vr.Layout}
+		acts := first.Actions
+		for _, f := range strings.Fields(first.Layout) {
+			if strings.HasPrefix(f, "imm:") {
+				acts = append(acts, f)
+			}
+		}
+		out.Verify = VerifyResult{First: first.First, Second: vr.First, Actions: append(acts, "reopen"), Layout: vr.Layout}
 		if vr.OpenError != "" {
 			out.Verify.OpenError = "reopen after maintenance: " + vr.OpenError
 		}
